@@ -14,7 +14,7 @@ NEED = ("special_tee_cancellations", "special_lru_cancellations", "special_cache
 
 
 def cases(tier, seed, shard, nshards, rng):
-    n = {"quick": 260, "thorough": 5000}[tier] // nshards
+    n = {"quick": 1200, "thorough": 50000}[tier] // nshards
     for i in range(max(5, n)):
         kind = ["tee", "lru", "cached_property", "exitstack", "scoped"][i % 5]
         if kind == "tee":
